@@ -598,7 +598,10 @@ def _check_value_order(ctx, prog, exp_ci, imp_ci):
             left_ids = isinstance(c.func, ast.Attribute) and c.func.attr in ("merge", "join") and any(
                 isinstance(x, ast.Constant) and x.value == "MYGEOMETRYIDS" for x in ast.walk(c.func.value)) and not any(
                 isinstance(x, ast.Call) and isinstance(x.func, ast.Attribute) and x.func.attr in ("merge", "join") for x in ast.walk(c.func.value))
-            if isinstance(c.func, ast.Attribute) and c.func.attr in ("merge", "join") and (idl or left_ids):
+            right_ids = isinstance(c.func, ast.Attribute) and c.func.attr in ("merge", "join") and not left_ids and any(
+                isinstance(x, ast.Constant) and x.value == "MYGEOMETRYIDS" for a_ in list(c.args) + [k_.value for k_ in c.keywords]
+                for x in ast.walk(a_))                  # the identifier frame written in place as the RIGHT operand
+            if isinstance(c.func, ast.Attribute) and c.func.attr in ("merge", "join") and (idl or left_ids or right_ids):
                 in_place_ids = left_ids
                 recv = c.func.value
                 while isinstance(recv, (ast.Call, ast.Attribute, ast.Subscript)):
